@@ -1,7 +1,7 @@
 (* C22 - memoization on: composition of the whitespace-insertion invariance (memo off) with
    C19's memo_safe (run memo=true = run memo=false on ctx_constant grammars). *)
-From TxV Require Import Core.Base Model.PegSyntax Model.Peg Proofs.PegProofs Proofs.PegMemo.
-From TxV Require Import Model.PegWsDefs Proofs.PegWs Proofs.PegWsSim.
+From TxV Require Import Core.Base Model.PegSyntax Model.Peg Proofs.PegProofs Proofs.PegMemo Proofs.PegFuel.
+From TxV Require Import Model.PegWsDefs Proofs.PegWs Proofs.PegWsSim Proofs.PegCmtSim.
 
 Lemma ctx_constant_ins_wf g cfg ins :
   ctx_constant g = true -> c_skipws cfg = true -> subset_ws ins (c_ws cfg) = true ->
@@ -11,7 +11,7 @@ Proof.
   rewrite Hs, Hw. simpl. rewrite forallb_forall in *. intros nd Hin. specialize (Hc nd Hin).
   unfold node_ctx_free in Hc. unfold node_ins_ok.
   destruct (n_ws nd); [discriminate|]. destruct (n_skipws nd); [discriminate|].
-  apply andb_true_iff in Hc as [Hc _]. apply negb_true_iff in Hc. rewrite Hc. reflexivity.
+  apply negb_true_iff in Hc. rewrite Hc. reflexivity.
 Qed.
 
 Lemma ws_insert_invariant_memo g cfg orc orc' fuel a ins b :
@@ -28,4 +28,40 @@ Proof.
       simpl in *; auto. }
   rewrite (memo_safe g (a ++ b) orc Hc cfg fuel Hna).
   rewrite (memo_safe g (a ++ ins ++ b) orc' Hc cfg fuel Hna'). exact H.
+Qed.
+
+(* ---------------------------------------------------------------- any two sufficient fuels
+   (fuel monotonicity, Proofs/PegFuel.v): the comment theorem compares the two runs at one common
+   fuel; since the mutated run needs more fuel than the original one, the usable form takes a
+   sufficient fuel for each run separately *)
+Lemma na_not0 o : PegWsDefs.not_aborted o -> o <> Aborted 0.
+Proof. intros H E. rewrite E in H. exact H. Qed.
+
+Lemma comment_insert_invariant_any_fuel g cfg orc orc' f f' a w1 c w2 b :
+  cmt_wf g cfg = true ->
+  cmt_ins_okb g cfg orc' a w1 c w2 = true ->
+  shift_okb g (a ++ b) orc (a ++ (w1 ++ c ++ w2) ++ b) orc' (length a) (length (w1 ++ c ++ w2)) = true ->
+  PegWsDefs.not_aborted (run g cfg orc false f (a ++ b)) ->
+  PegWsDefs.not_aborted (run g cfg orc' false f' (a ++ (w1 ++ c ++ w2) ++ b)) ->
+  outcome_shifted (length a) (length (w1 ++ c ++ w2))
+                  (run g cfg orc false f (a ++ b)) (run g cfg orc' false f' (a ++ (w1 ++ c ++ w2) ++ b)).
+Proof.
+  intros Hwf Hins Hok Hna Hna'.
+  pose proof (run_fuel_mono g cfg orc false f (Nat.max f f') (a ++ b) (Nat.le_max_l f f') (na_not0 _ Hna)) as E1.
+  pose proof (run_fuel_mono g cfg orc' false f' (Nat.max f f') (a ++ (w1 ++ c ++ w2) ++ b) (Nat.le_max_r f f') (na_not0 _ Hna')) as E2.
+  rewrite <- E1, <- E2. apply comment_insert_invariant; try assumption; [rewrite E1 | rewrite E2]; assumption.
+Qed.
+
+Lemma ws_insert_invariant_any_fuel g cfg orc orc' f f' a ins b :
+  ins_wf g cfg ins = true ->
+  shift_okb g (a ++ b) orc (a ++ ins ++ b) orc' (length a) (length ins) = true ->
+  PegWsDefs.not_aborted (run g cfg orc false f (a ++ b)) ->
+  PegWsDefs.not_aborted (run g cfg orc' false f' (a ++ ins ++ b)) ->
+  outcome_shifted (length a) (length ins)
+                  (run g cfg orc false f (a ++ b)) (run g cfg orc' false f' (a ++ ins ++ b)).
+Proof.
+  intros Hwf Hok Hna Hna'.
+  pose proof (run_fuel_mono g cfg orc false f (Nat.max f f') (a ++ b) (Nat.le_max_l f f') (na_not0 _ Hna)) as E1.
+  pose proof (run_fuel_mono g cfg orc' false f' (Nat.max f f') (a ++ ins ++ b) (Nat.le_max_r f f') (na_not0 _ Hna')) as E2.
+  rewrite <- E1, <- E2. apply ws_insert_invariant; assumption.
 Qed.
